@@ -1,0 +1,11 @@
+//go:build verif
+
+package martian
+
+// VerifLiveContexts reports how many request-to-context associations are
+// currently held. Verification hook: compiled only with the verif build tag.
+func VerifLiveContexts() int {
+	ctxmu.RLock()
+	defer ctxmu.RUnlock()
+	return len(ctxs)
+}
